@@ -58,4 +58,17 @@ theorem pyWhile_of_iter {σ : Type} (cond : σ → Bool) (body : σ → σ) :
       · rwa [Function.iterate_succ_apply] at hstop
       · omega
 
+/-- membership is preserved by an injective change of representation (model naturals -> Python ints) -/
+theorem contains_map_inj {α β : Type} [BEq α] [LawfulBEq α] [BEq β] [LawfulBEq β] (f : α → β)
+    (hf : ∀ a b, f a = f b → a = b) (l : List α) (a : α) : (l.map f).contains (f a) = l.contains a := by
+  induction l with
+  | nil => rfl
+  | cons x t ih =>
+    simp only [List.map_cons, List.contains_cons, ih]
+    congr 1
+    by_cases h : a = x
+    · subst h; simp
+    · have : f a ≠ f x := fun e => h (hf _ _ e)
+      simp [h, this]
+
 end Rig.PyLoops
